@@ -455,7 +455,9 @@ pub fn c04(em: &mut Emit, thorough: bool, seed: u64) {
     {
         let now = std::time::SystemTime::now().duration_since(UNIX_EPOCH).unwrap().as_secs();
         let m = now + 7200;
-        let fdates: [Option<u64>; 6] = [None, Some(now - 3600), Some(now + 3600), Some(m - 1), Some(m), Some(m + 1)];
+        // (`u64::MAX`: resolved per call to the wall-clock second of the call — the very second a
+        // response clamps a future Last-Modified to, and what a client echoes a moment later)
+        let fdates: [Option<u64>; 7] = [None, Some(now - 3600), Some(now + 3600), Some(m - 1), Some(m), Some(m + 1), Some(u64::MAX)];
         for et in &etags {
             for nanos in [0u32, 250_000_000] {
                 let mut e = HEntity::new(10);
@@ -466,6 +468,9 @@ pub fn c04(em: &mut Emit, thorough: bool, seed: u64) {
                         for method in ["GET", "HEAD"] {
                             let mut q = HReq::get();
                             q.method = method.into();
+                            let this_second = std::time::SystemTime::now().duration_since(UNIX_EPOCH).unwrap().as_secs();
+                            let resolve = |d: &Option<u64>| d.map(|s| if s == u64::MAX { this_second } else { s });
+                            let (ius, ims) = (&resolve(ius), &resolve(ims));
                             q.ius = ius.map_or(DateH::Absent, DateH::Secs);
                             q.ims = ims.map_or(DateH::Absent, DateH::Secs);
                             fmt_counter += 1;
@@ -594,6 +599,7 @@ pub fn c05(em: &mut Emit, thorough: bool, seed: u64) {
     for i in 0..n_rand {
         if_ranges.push((format!("rand{}", i % 4), Some(random_header_bytes(&mut rng, 8))));
     }
+    let mut line_no = 0usize;
     for et in &etags {
         for (name, ir) in &if_ranges {
             for r in &ranges {
@@ -606,6 +612,16 @@ pub fn c05(em: &mut Emit, thorough: bool, seed: u64) {
                     q.method = method.into();
                     q.range = Some(r.to_vec());
                     q.if_range = ir.clone();
+                    // further If-Range header LINES after the first (which alone counts): the
+                    // entity's current tag after a stale one, a stale one after the current
+                    line_no += 1;
+                    if ir.is_some() {
+                        match (line_no % 3, &e.etag) {
+                            (1, Some(t)) => q.repeats.push(("if-range".into(), t.clone())),
+                            (2, _) => q.repeats.push(("if-range".into(), b"\"some-other-version\"".to_vec())),
+                            _ => {}
+                        }
+                    }
                     let o = observe_serve(&q, &e);
                     let identical_strong = match (&ir, &e.etag) {
                         (Some(v), Some(t)) => v == t && !t.starts_with(b"W/"),
@@ -627,6 +643,7 @@ pub fn c05(em: &mut Emit, thorough: bool, seed: u64) {
                         // Range still honoured: same as without If-Range
                         let mut q2 = q.clone();
                         q2.if_range = None;
+                        q2.repeats.clear();
                         let o2 = observe_serve(&q2, &e);
                         if o.status != o2.status
                             || o.header("content-range") != o2.header("content-range")
@@ -921,6 +938,12 @@ pub fn c14(em: &mut Emit, thorough: bool, seed: u64) {
     // but in the same second as the request
     let mut mtimes: Vec<(&str, Option<(u64, u32)>)> = vec![
         ("this-second", Some((u64::MAX, 1))),
+        // resolved per case to that much AHEAD of the wall clock: less than a second in the
+        // future, which for some of them is already the next second
+        ("lead-300ms", Some((u64::MAX - 1, 300_000_000))),
+        ("lead-600ms", Some((u64::MAX - 1, 600_000_000))),
+        ("lead-900ms", Some((u64::MAX - 1, 900_000_000))),
+        ("lead-1s-less-1ns", Some((u64::MAX - 1, 999_999_999))),
         ("absent", None),
         ("epoch", Some((0, 0))),
         ("whole", Some((T0, 0))),
@@ -975,6 +998,9 @@ pub fn c14(em: &mut Emit, thorough: bool, seed: u64) {
                         if s == u64::MAX {
                             let d = std::time::SystemTime::now().duration_since(UNIX_EPOCH).unwrap();
                             (d.as_secs(), n.min(d.subsec_nanos()))
+                        } else if s == u64::MAX - 1 {
+                            let d = std::time::SystemTime::now().duration_since(UNIX_EPOCH).unwrap() + Duration::from_nanos(n as u64);
+                            (d.as_secs(), d.subsec_nanos())
                         } else {
                             (s, n)
                         }
